@@ -158,7 +158,7 @@ def run(prop, tier, seed, t0):
         cov['verus'][cfgname]['canaries'] = len(can)
 
     # ---- Kani ---------------------------------------------------------------------------------
-    k = kani_run.run_for_property(prop, tier)
+    k = None if os.environ.get('PSC_NO_KANI') else kani_run.run_for_property(prop, tier)
     if k is not None:
         cmds.append(k['cmd'])
         cov['kani'] = k['summary']
